@@ -317,13 +317,18 @@ def check_no_crash(cfg, queries, size, levy, entropy=3):
 
 
 def long_run(n, cache_size=45, levy="none", tol=0.0, halfway=False, dt_hint=False, backward=True, size=(1, 1),
-             entropy=11, retries=False):
-    """Solver-shaped history with the REAL warm-up constant: n equal steps forward (optionally with
-    adaptive-style retries), then the same steps backward.  Returns dict(exc, max_depth, max_cache)."""
+             entropy=11, retries=False, shape="equal"):
+    """Solver-shaped history with the REAL warm-up constant: n steps forward (optionally with adaptive-style
+    retries), then the same steps backward.  Returns dict(exc, max_depth, max_cache).
+    shape: "equal"      n equal steps over [0, 1];
+           "loose_hint" n equal steps but the constructor's dt hint is 64 times larger than the steps taken (the hint
+                        is only the expected average step size);
+           "two_rate"   n/8 steps of size 8h over [0, 1/2... then n fine steps of size h/8 (the step size drops
+                        sharply, as with an adaptive solver), all inside the span of a few coarse steps."""
     kw = dict(t0=0.0, t1=1.0, size=size, dtype=torch.float64, entropy=entropy, cache_size=cache_size, tol=tol,
               halfway_tree=halfway, levy_area_approximation=levy)
-    if dt_hint:
-        kw["dt"] = 1.0 / n
+    if dt_hint or shape == "loose_hint":
+        kw["dt"] = (64.0 if shape == "loose_hint" else 1.0) / n
     out = dict(exc=None, max_depth=0, max_cache=0, n=n)
     rec = B.LocRecorder()
     base = B.base_depth()
@@ -333,6 +338,12 @@ def long_run(n, cache_size=45, levy="none", tol=0.0, halfway=False, dt_hint=Fals
             bm = torchsde.BrownianInterval(**kw)
             ks = list(range(n))
             seq = [(k / n, (k + 1) / n) for k in ks]
+            if shape == "two_rate":
+                nc = max(4, n // 8)
+                coarse = [(0.5 * k / nc, 0.5 * (k + 1) / nc) for k in range(nc)]
+                h = (0.5 / nc) / 128.0
+                fine = [(0.5 + k * h, 0.5 + (k + 1) * h) for k in range(n) if 0.5 + (k + 1) * h <= 1.0]
+                seq = coarse + fine
             if retries:
                 seq2 = []
                 for (a, b) in seq:
